@@ -93,7 +93,11 @@ func maxPrefixInputs(tn string) (out [][]byte, labels []string) {
 			if sp.Kind != "count" && sp.Kind != "prefix" {
 				continue
 			}
-			for _, val := range []uint64{sp.Max, sp.Max - 1, 0x7ffffff0 & sp.Max, 0x80000000 & sp.Max, 0x00ffffff & sp.Max} {
+			vals := []uint64{sp.Max, sp.Max - 1, 0x7ffffff0 & sp.Max, 0x80000000 & sp.Max, 0x00ffffff & sp.Max}
+			for k := uint(8); k < uint(8*sp.Len); k++ { // every power of two >= 256 and its neighbours
+				vals = append(vals, uint64(1)<<k, uint64(1)<<k+1, uint64(3)<<(k-1)&sp.Max, uint64(7)<<(k-2)&sp.Max)
+			}
+			for _, val := range vals {
 				if val == 0 {
 					continue
 				}
@@ -182,7 +186,7 @@ func runHostile(t *testing.T, prop, check string, oracle func(*CaseBytes) *Failu
 				}
 			}
 		}
-		Col.MarkExhaustive("every count/length prefix of every type (all registered keys of frames/extended messages) set to max, max-1, 0x7ffffff0, 0x80000000, 0x00ffffff with <=16 bytes following")
+		Col.MarkExhaustive("every count/length prefix of every type (all registered keys of frames/extended messages) set to max, max-1, 0x7ffffff0, 0x80000000, 0x00ffffff and every 2^k, 2^k+1, 3*2^(k-1), 7*2^(k-2) >= 256, with <=16 bytes following")
 	})
 	// (1b) every discriminator of every holder type overwritten with blank / zero / 0xff / near-miss values
 	t.Run("discriminators", func(t *testing.T) {
